@@ -47,6 +47,7 @@ async fn run_async(scn: &Scn) {
         tokio::time::sleep(Duration::from_millis(100)).await;
         let t0 = simrt::now_ns();
         ctl.shut_down().await;
+                simrt::tokio_net::set_runtime_dropped();
         IDLE_SHUTDOWN_MS[1].store((simrt::now_ns() - t0) / 1_000_000, SeqCst);
         return;
     }
@@ -165,10 +166,12 @@ async fn run_async(scn: &Scn) {
                 simrt::count_fault(Fault::Shutdown);
                 simrt::probe("c30_shutdown_midrun");
                 ctl.shut_down().await;
+                simrt::tokio_net::set_runtime_dropped();
                 clients.await;
             } else {
                 tokio::time::sleep(Duration::from_millis(2_500)).await;
                 ctl.shut_down().await;
+                simrt::tokio_net::set_runtime_dropped();
             }
         }
         None => {
@@ -176,11 +179,18 @@ async fn run_async(scn: &Scn) {
             tokio::time::sleep(Duration::from_millis(2_500)).await;
             let t0 = simrt::now_ns();
             ctl.shut_down().await;
+                simrt::tokio_net::set_runtime_dropped();
             took_ms = (simrt::now_ns() - t0) / 1_000_000;
         }
     }
     if !midrun && took_ms > shutdown_bound_ms(scn) {
         viol("shutdown-too-slow", format!("tokio provider: shut_down() completed {took_ms} simulated ms after the request (bound {} ms)", shutdown_bound_ms(scn)));
+    }
+    if simrt::tokio_net::late_io() > 0 {
+        // TokioShutdownController::shut_down "waits for [the server tasks] to terminate"; the
+        // daemon drops the runtime right afterwards, so a task that is still alive is cancelled
+        // mid-connection (torn or missing responses)
+        viol("server-task-alive-after-shutdown-returned", format!("tokio provider: {} server-side socket operations after shut_down() had returned", simrt::tokio_net::late_io()));
     }
     if let Some((m, loc)) = crate::util::take_last_panic() {
         viol(&format!("panic@{}", crate::util::norm_location(&loc)), format!("a task of the Tokio provider panicked: {m}"));
